@@ -1,14 +1,8 @@
 SPECIFICATION Spec
 CONSTANTS
-    MaxStreams = 2
-    MaxBatches = 2
-    FirstClasses = {"empty", "other", "bin1", "binN", "nonbin"}
-    LaterClasses = {"any"}
-    Kinds <- PalMCQuick
-    Tails = {"clean", "cut_in", "junk"}
+    Suites <- MCQuickSuites
+    Tails = {"clean", "cut_in"}
     SweepTails = FALSE
-    WriteReqCases <- AllWriteReq
-    WriteResCases <- AllWriteRes
     Garbles = 0
     Mode = "mc"
     Depth = 0
